@@ -162,24 +162,33 @@ class PairType(MichelsonType, ADTMixin, prim='pair', args_len=None):
 
     def unpairn_comb(self, count) -> Generator[MichelsonType, None, None]:
         for i, item in enumerate(self):
-            if i == 1 and isinstance(item, PairType) and not (item.field_name or item.type_name) and count > 0:
+            if i == 1 and isinstance(item, PairType) and count > 0:
                 yield from item.unpairn_comb(count - 1)
             else:
                 yield item
 
     def access_comb(self, idx: int) -> MichelsonType:
-        return next(item for i, item in enumerate(self.iter_comb(include_nodes=True)) if i == idx)
+        # GET n addresses the nodes of the right comb structurally, whatever the annotations
+        node: MichelsonType = self
+        while idx >= 2:
+            assert isinstance(node, PairType), f'expected pair, got {node.prim}'
+            node = node.items[1]
+            idx -= 2
+        if idx == 1:
+            assert isinstance(node, PairType), f'expected pair, got {node.prim}'
+            return node.items[0]
+        return node
 
     def update_comb(self, idx: int, element: MichelsonType) -> 'PairType':
-        if idx % 2 == 1:
-            leaves = [element if 2 * i + 1 == idx else item for i, item in enumerate(self.iter_comb())]
-        else:
-            leaves = [item for i, item in enumerate(self.iter_comb()) if 2 * i + 1 < idx]
-            if isinstance(element, PairType):
-                leaves.extend(element.iter_comb())
-            else:
-                leaves.append(element)
-        return type(self).from_comb(leaves)
+        if idx == 0:
+            return cast('PairType', element)
+        if idx == 1:
+            return PairType.from_comb([element, self.items[1]])
+        right = self.items[1]
+        if idx > 2:
+            assert isinstance(right, PairType), f'expected pair, got {right.prim}'
+            element = right.update_comb(idx - 2, element)
+        return PairType.from_comb([self.items[0], element])
 
     def to_literal(self) -> Type[Micheline]:
         return PairLiteral.create_type(args=[item.to_literal() for item in self.items])
